@@ -187,7 +187,7 @@ theorem def_visitsA {β : Type} {site : IxM β} (n item : PTree) (hu : InDef n i
       VisitsA.bind_first (recordBody_visitsA k rb item hbu hin) (fun _ => scopesPop_keeps)
   unfold indexDef
   simp only [hrb]
-  refine VisitsA.bind_second (by pre_prim (by unfold sameFileDefset; keeps)) fun ds => ?_
+  refine VisitsA.bind_second (by pre_prim (by unfold defDefset sameFileDefset; keeps)) fun ds => ?_
   rcases hu.name with hnone | ⟨nameValue, inner, sv, name, se, h1, h2, h3, h4, h5, h6⟩
   · simp only [hnone, pure_bind]
     refine VisitsA.bind_second (by pre_prim nextAnonymousDefName_keeps) fun nm => ?_
